@@ -7,20 +7,21 @@ import framework as fw
 sys.path.insert(0, os.path.dirname(os.path.abspath(__file__)))
 from framework import REPO
 
-TIE = ["Nsq.Tie.ToolsToFile"]
-PROPS = ["Nsq.Props.C19"]
+TIE = ["Nsq.Tie.ToolsToFile", "Nsq.Tie.ToolsToFileFn"]
+PROPS = ["Nsq.Props.C19", "Nsq.Props.C19Name"]
 CORPUS = os.path.join(fw.ROOT, "corpus", "C19")
+HARNESS = ["e8/tofile_test.go", "e8/tofile_names_test.go", "e8/stub_nsqd.go"]
 
 
 def build_pair(ctx):
     """The harness is built twice: `tofile` (real clock: generates scripts, runs the children,
     evaluates the oracles) and `tofilechild` (-tags faketime, cgo off: the real router on the Go
     runtime's deterministic fake clock)."""
-    parent = ctx.go_test_binary("apps/nsq_to_file", ["e8/tofile_test.go", "e8/stub_nsqd.go"], "e8tofile", pkgname="main")
+    parent = ctx.go_test_binary("apps/nsq_to_file", HARNESS, "e8tofile", pkgname="main")
     old = fw.GOENV["CGO_ENABLED"]
     fw.GOENV["CGO_ENABLED"] = "0"   # the fake clock only advances when deadlock detection works (no cgo threads)
     try:
-        child = ctx.go_test_binary("apps/nsq_to_file", ["e8/tofile_test.go", "e8/stub_nsqd.go"], "e8tofilechild", pkgname="main",
+        child = ctx.go_test_binary("apps/nsq_to_file", HARNESS, "e8tofilechild", pkgname="main",
                                    tags="verif,faketime")
     finally:
         fw.GOENV["CGO_ENABLED"] = old
@@ -104,6 +105,7 @@ def run(ctx):
                 "that finished a message, changed a file or ended the process")
     # 1-2: regenerate, build, audit
     ctx.gen("e8_tools")
+    ctx.gen("e8_tofile_fn")
     built = []
     for mod in TIE + PROPS:
         ok, log = ctx.lean_build([mod])
@@ -209,6 +211,8 @@ def run(ctx):
             ctx.corr.setdefault("syscall_leg", []).append({"label": label, "traces": nst, "fins": nfin})
             if label == "gen" and nst and nfin == 0:
                 corr_broken.append("syscall leg saw no FIN marker")
+    if parent and not ctx.replay_in:
+        names_leg(ctx, parent, corr_broken)
     # known finding replay: the tool as shipped (router behind go-nsq's handlerLoop, max_attempts 5)
     if parent and not ctx.replay_in:
         rc, log = ctx.run_cmd([parent, "-test.run", "^TestVerifToFileGiveUp$", "-test.count=1"], timeout=120)
@@ -236,6 +240,86 @@ def run(ctx):
         ctx.broken_without_input(ctx.broken_ties + corr_broken,
                                  "search: %d generated events through the real router with the readable-at-FIN, "
                                  "end-state, no-overwrite and fsync-before-FIN oracles found no failing input" % ctx.evaluations)
+
+
+def _unhex(h):
+    return b"" if h == "-" else bytes.fromhex(h)
+
+
+def py_names(op):
+    """independent oracle for the file-name functions: Python's bytes.replace has the semantics of
+    strings.Replace(…, -1) for a non-empty pattern"""
+    w = op.split()
+    if w[1] == "cff":
+        hi, ff, gz, rs, ri, wd, od, tp, hk, hn, pid = w[2:13]
+        hi, ff, wd, od, tp, hn, pid = map(_unhex, (hi, ff, wd, od, tp, hn, pid))
+        if hk == "err":
+            return "err " + (hn.hex() or "-")
+        short = hn.split(b".")[0]
+        ident = short
+        if hi:
+            ident = hi.replace(b"<SHORT_HOST>", short).replace(b"<HOSTNAME>", hn)
+        need = gz == "1" or int(rs) > 0 or int(ri) > 0 or wd != od
+        if need:
+            if b"<REV>" not in ff:
+                return "err " + b"missing <REV> in --filename-format when gzip, rotation, or work dir enabled".hex()
+        else:
+            ff = ff.replace(b"<REV>", b"")
+        ff = ff.replace(b"<TOPIC>", tp).replace(b"<HOST>", ident).replace(b"<PID>", pid)
+        if gz == "1" and not ff.endswith(b".gz"):
+            ff += b".gz"
+        return "ok %s rev=%d" % (ff.hex() or "-", 1 if b"<REV>" in ff else 0)
+    if w[1] == "cfn":
+        return _unhex(w[2]).replace(b"<DATETIME>", _unhex(w[3])).hex() or "-"
+    return "?"
+
+
+def names_leg(ctx, parent, corr_broken):
+    """computeFilenameFormat / currentFilename: real functions vs the Lean model (which is proved equal to
+    their go2lean translation) vs an independent Python rendering; direct oracles in the harness."""
+    out = os.path.join(ctx.work, "tf_names")
+    os.makedirs(out, exist_ok=True)
+    rc, log = ctx.run_cmd([parent, "-test.run", "^TestVerifToFileNames$", "-test.count=1"], timeout=300,
+                          env={"VERIF_SEED": ctx.seed, "VERIF_N": ctx.budget(600, 6000), "VERIF_OUT": out})
+    if rc != 0 or "ORACLE-DONE names" not in log:
+        ctx.log("names harness failed:\n" + log[-1500:])
+        corr_broken.append("names harness exit %s" % rc)
+        return
+    ops = open(os.path.join(out, "tfnames.ops")).read().splitlines()
+    impl = open(os.path.join(out, "tfnames.impl")).read().splitlines()
+    rc, mout = ctx.driver("e8", stdin_path=os.path.join(out, "tfnames.ops"))
+    model = mout.splitlines()
+    hist = {}
+    for l in log.splitlines():
+        if l.startswith("HIST "):
+            _, k, v = l.split()
+            hist[k] = int(v)
+        if l.startswith("ORACLE-FAIL names"):
+            m = re.match(r"ORACLE-FAIL names case=(\d+) (.*)", l)
+            ctx.violation("tofile-names:" + "-".join(re.sub(r"[^a-z ]", "", re.sub(r'"[^"]*"', "", m.group(2).lower())).split()[:6]),
+                          "nsq_to_file file names: " + m.group(2), l + "\n")
+    ctx.corr["names"] = {"ops": len(ops), "histogram": hist}
+    for o, i in zip(ops, impl):
+        ctx.count_case(o + "|" + i, nontrivial=True)
+        want = py_names(o)
+        ctx.evaluations += 1
+        if want != i:
+            # the implementation's own answer decides: a rotating configuration without <REV>, or a lost <REV>
+            w = o.split()
+            what = "computeFilenameFormat/currentFilename answered %s, an independent rendering of the documented substitution gives %s" % (i[:120], want[:120])
+            bad = i.startswith("ok ") and want.startswith("err ")
+            bad = bad or (i.startswith("ok ") and i.endswith("rev=0") and want.endswith("rev=1"))
+            bad = bad or (w[1] == "cfn" and b"<REV>" in _unhex(want) and b"<REV>" not in _unhex(i))
+            if bad:
+                ctx.violation("tofile-names:" + w[1], "nsq_to_file file names: " + what, o + "\n")
+            else:
+                corr_broken.append("names oracle (python) " + w[1])
+                ctx.log("names: " + what + "\n   op=" + o[:200])
+    for idx, a, b in ctx.diff_lines(impl, model, "tofile-names"):
+        ctx.log("model/impl disagree on `%s`:\n   impl =%s\n   model=%s" % (ops[idx][:160], a[:200], b[:200]))
+        corr_broken.append("correspondence names op %s" % ops[idx].split()[1])
+    for o, i in list(zip(ops, impl))[:3]:
+        ctx.add_sample({"op": o[:160], "impl": i[:160]})
 
 
 def property_fails_on(impl, model):
